@@ -71,15 +71,38 @@ func c09Reply(key string, i int) (*proxyv1alpha1.RateLimitAcquireResult, int) {
 // outage - and the instance is marked available; the stock of server-granted tokens never goes negative through
 // replies and never exceeds what a full reserve plus the grants allow.
 // verif:bounds (local qps, local burst, global qps, global burst) from 4 (quick) / 6 (thorough) concrete configurations incl. burst above and below qps; k = 1..3 replies, each symbolic over {accept, refuse, error, RequestIDTooOld} with arbitrary int32 amounts; meter readings arbitrary in [0, global qps]
-func HarnessC09CountTokenBucket() {
-	f, w, localQPS, _, globalQPS, globalBurst := c09TokenBucketSetup()
+func HarnessC09CountTokenBucket() { c09CountTokenBucket(false) }
+
+// HarnessC09CountTokenBucketSchemaShrinks: the same wrapper when the schema's global rate is halved between two replies:
+// the new rate binds at once, also during an outage.
+// verif:bounds configurations as above; reply, global (qps, burst) halved (not below the local numbers), reply
+func HarnessC09CountTokenBucketSchemaShrinks() { c09CountTokenBucket(true) }
+
+func c09CountTokenBucket(shrinks bool) {
+	f, w, localQPS, localBurst, globalQPS, globalBurst := c09TokenBucketSetup()
 	if w == nil {
 		return
 	}
 	q0, b0, ok0 := c09InstalledBucket(f.remote)
 	vassert(ok0 && q0 == globalQPS && b0 == globalBurst, "C09/count-bucket-initial-numbers-not-the-configured-global-ones")
 	k := nondetRange("replies", 1, 3)
+	if shrinks {
+		k = 2
+	}
 	for i := 0; i < k; i++ {
+		if shrinks && i == 1 {
+			globalQPS, globalBurst = globalQPS/2, globalBurst/2
+			if globalQPS < localQPS {
+				globalQPS = localQPS
+			}
+			if globalBurst < localBurst {
+				globalBurst = localBurst
+			}
+			f.remote.Sync(proxyv1alpha1.RateLimitItemConfiguration{Name: "fc", Strategy: proxyv1alpha1.GlobalCountLimit,
+				LimitItemDetail: proxyv1alpha1.LimitItemDetail{TokenBucket: &proxyv1alpha1.TokenBucketFlowControlSchema{QPS: globalQPS, Burst: globalBurst}}})
+			qs, _, oks := c09InstalledBucket(f.remote)
+			vassert(oks && qs > 0 && qs <= globalQPS, "C09/count-bucket-qps-above-the-shrunk-global-rate")
+		}
 		res, kind := c09Reply("r", i)
 		wasUnavailable := w.serverUnavailable == 1
 		w.SetLimit(&AcquireResult{result: res, requestTime: int64(i + 1)})
